@@ -79,6 +79,59 @@ func ruleSwallow(c *Ctx, rule string, fns []*ssa.Function) {
 			c.Bad(rule, name, c.P.Pos(r.Pos()),
 				fmt.Sprintf("returns a nil error on a path where %s is known to be non-nil (facts: %s)", strings.Join(culprit, ", "), fi.Describe(r.Block())))
 		}
+		// tested but ignored: an error whose only use is the nil test, and on whose non-nil side a
+		// return that does not report failure is reachable (if err := f(); err != nil { break } ... return other)
+		for _, b := range fn.Blocks {
+			for _, in := range b.Instrs {
+				v, isVal := in.(ssa.Value)
+				if !isVal || !isErrorType(v.Type()) {
+					continue
+				}
+				switch in.(type) {
+				case *ssa.Call, *ssa.Extract:
+				default:
+					continue
+				}
+				var tests []*ssa.BinOp
+				onlyTests := true
+				for _, r := range *v.Referrers() {
+					switch x := r.(type) {
+					case *ssa.DebugRef:
+					case *ssa.BinOp:
+						if (x.Op == token.EQL || x.Op == token.NEQ) && (isNilConst(x.X) || isNilConst(x.Y)) {
+							tests = append(tests, x)
+						} else {
+							onlyTests = false
+						}
+					default:
+						onlyTests = false
+					}
+				}
+				if !onlyTests || len(tests) == 0 {
+					continue
+				}
+				for _, t := range tests {
+					for _, r := range *t.Referrers() {
+						iff, isIf := r.(*ssa.If)
+						if !isIf || len(iff.Block().Succs) != 2 {
+							continue
+						}
+						succ := iff.Block().Succs[0]
+						if t.Op == token.EQL {
+							succ = iff.Block().Succs[1]
+						}
+						if !edgeLeadsOnlyToFailure(fi, iff.Block(), succ, ei) {
+							if why, ok := swallowExceptions[name]; ok {
+								c.OK(rule, name, c.P.Pos(t.Pos()), "tabled exception: "+why)
+								continue
+							}
+							bad++
+							c.Bad(rule, name+": "+describeValue(v), c.P.Pos(t.Pos()), "this error is only tested for nil and its value is never used: on the non-nil side a return that does not report a failure is reachable, so the failure is lost")
+						}
+					}
+				}
+			}
+		}
 		if bad == 0 {
 			c.OK(rule, name, c.P.Pos(fn.Pos()), fmt.Sprintf("%d return(s): none returns nil while an error value is known non-nil", nret))
 		}
